@@ -19,7 +19,7 @@ theorem CanGoOn.canMove {s : St} (h : CanGoOn s) : CanMove s := by
   obtain ⟨l, h1, _, h2⟩ := h; exact ⟨l, h1, h2⟩
 
 theorem w_enabled {s : St} {i : Nat} {a : WAct} {p q : WP} (hx : s.exited = none) (hp : s.ws[i]? = some p)
-    (hn : wNext s.g a p (tsAt s i == .canceled) = some q) (hT : a = .lockT → s.thd = .none)
+    (hn : wNext s.g a p (tsAt s i == .canceled) = some q) (hT : a.locksT = true → s.thd = .none)
     (hO : a = .lock → s.own = .none) : CanGoOn s := by
   refine ⟨.w i a, by simp [Label.proper, Label.spurious, Label.isEnv], by simp, ?_⟩
   rw [step_of_w hx]
@@ -70,11 +70,11 @@ theorem thd_holder_moves {s : St} (h : Inv s) (hx : s.exited = none) (hthd : s.t
   | w k =>
     have hh := (h.m.thdW k).mp ho
     cases hp : pc s k <;> rw [hp] at hh <;> simp [holdsT] at hh
-    · exact w_enabled (a := .unlockT) hx (getElem?_of_getD' hp (by simp)) (by simp [wNext]; rfl) (by simp) (by simp)
-    · exact w_enabled (a := .unlockT) hx (getElem?_of_getD' hp (by simp)) (by simp [wNext]; rfl) (by simp) (by simp)
-    · exact w_enabled (a := .time) hx (getElem?_of_getD' hp (by simp)) (by simp [wNext]; rfl) (by simp) (by simp)
-    · exact w_enabled (a := .unlockT) hx (getElem?_of_getD' hp (by simp)) (by simp [wNext]; rfl) (by simp) (by simp)
-    · exact w_enabled (a := .unlockT) hx (getElem?_of_getD' hp (by simp)) (by simp [wNext]; rfl) (by simp) (by simp)
+    · exact w_enabled (a := .unlockT) hx (getElem?_of_getD' hp (by simp)) (by simp [wNext]; rfl) (by simp [WAct.locksT]) (by simp)
+    · exact w_enabled (a := .unlockT) hx (getElem?_of_getD' hp (by simp)) (by simp [wNext]; rfl) (by simp [WAct.locksT]) (by simp)
+    · exact w_enabled (a := .time) hx (getElem?_of_getD' hp (by simp)) (by simp [wNext]; rfl) (by simp [WAct.locksT]) (by simp)
+    · exact w_enabled (a := .unlockT) hx (getElem?_of_getD' hp (by simp)) (by simp [wNext]; rfl) (by simp [WAct.locksT]) (by simp)
+    · exact w_enabled (a := .unlockT) hx (getElem?_of_getD' hp (by simp)) (by simp [wNext]; rfl) (by simp [WAct.locksT]) (by simp)
   | g =>
     have hh := h.w.thdG2 ho
     cases hg : s.gpc <;> rw [hg] at hh <;> simp [GPC.holds] at hh
@@ -101,8 +101,8 @@ theorem own_holder_moves {s : St} (h : Inv s) (hx : s.exited = none) (hown : s.o
   | w k =>
     have hh := (h.m.ownW k).mp ho
     cases hp : pc s k <;> rw [hp] at hh <;> simp [holdsW] at hh
-    · exact w_enabled (a := .signal) hx (getElem?_of_getD' hp (by simp)) (by simp [wNext]; rfl) (by simp) (by simp)
-    · exact w_enabled (a := .unlock) hx (getElem?_of_getD' hp (by simp)) (by simp [wNext]; rfl) (by simp) (by simp)
+    · exact w_enabled (a := .signal) hx (getElem?_of_getD' hp (by simp)) (by simp [wNext]; rfl) (by simp [WAct.locksT]) (by simp)
+    · exact w_enabled (a := .unlock) hx (getElem?_of_getD' hp (by simp)) (by simp [wNext]; rfl) (by simp [WAct.locksT]) (by simp)
   | g => exact absurd ho h.w.ownG
   | s =>
     rcases h.m.ownS2 ho with hs | hs
@@ -137,10 +137,10 @@ theorem worker_can_move {s : St} (h : Inv s) (hx : s.exited = none) (hnd : s.own
   · exact needT (a := .destroyEnd) (getElem?_of_getD' hp (by simp)) (by simp [wNext]; rfl) (by simp)
   · -- torn: needs threadcount_mutex
     by_cases ho : s.own = .none
-    · exact w_enabled (a := .lock) hx (getElem?_of_getD' hp (by simp)) (by simp [wNext]; rfl) (by simp) (fun _ => ho)
+    · exact w_enabled (a := .lock) hx (getElem?_of_getD' hp (by simp)) (by simp [wNext]; rfl) (by simp [WAct.locksT]) (fun _ => ho)
     · exact own_holder_moves h hx ho hnd hnc
-  · exact w_enabled (a := .signal) hx (getElem?_of_getD' hp (by simp)) (by simp [wNext]; rfl) (by simp) (by simp)
-  · exact w_enabled (a := .unlock) hx (getElem?_of_getD' hp (by simp)) (by simp [wNext]; rfl) (by simp) (by simp)
+  · exact w_enabled (a := .signal) hx (getElem?_of_getD' hp (by simp)) (by simp [wNext]; rfl) (by simp [WAct.locksT]) (by simp)
+  · exact w_enabled (a := .unlock) hx (getElem?_of_getD' hp (by simp)) (by simp [wNext]; rfl) (by simp [WAct.locksT]) (by simp)
 
 /-- the dispatcher wants threadcount_mutex: it is free, or its holder can move -/
 theorem free_or_move {s : St} (h : Inv s) (hx : s.exited = none) (hnh : s.dpc.holds = false)
@@ -221,6 +221,11 @@ theorem finishing_moves {s : St} (h : Inv s) (hx : s.exited = none) (hd : s.dpc 
       left
       cases k with
       | zero => exact s_enabled (a := .unlockT) hx (by simp) (by simp [sStep, hsp])
+      | succ k => exact s_enabled (a := .time s.now) hx (by simp) (by simp [sStep, hsp])
+    | printing k =>
+      left
+      cases k with
+      | zero => exact s_enabled (a := .time s.now) hx (by simp) (by simp [sStep, hsp])
       | succ k => exact s_enabled (a := .time s.now) hx (by simp) (by simp [sStep, hsp])
     | fwding k =>
       left
